@@ -373,6 +373,9 @@ def run(M, rec, tier, seed, k, n):
     pm.install()
     try:
         direct_cveq(M, rec, rng, 3000 if tier == "quick" else 40000)
+        from vf import batched
+
+        batched.batched_primitives(M, rec, rng, PROP, 300 if tier == "quick" else 3000, which=("controlled_Veq",), monitors=(pm,))
         relations(M, rec, rng, 160 if tier == "quick" else 1200, symvals)
         multistep_neutral(M, rec, rng, G.NetGen(rng), 40 if tier == "quick" else 300)
     finally:
